@@ -82,6 +82,7 @@ func newTrEnv() *trEnv {
 		}
 		return &certA, nil
 	}}
+	e.srv.Listener = resetListener{e.srv.Listener}
 	e.srv.StartTLS()
 	e.addr = e.srv.Listener.Addr().String()
 	return e
@@ -325,15 +326,19 @@ func TestTransportCases(t *testing.T) {
 	defer w.Close()
 	env := newTrEnv()
 	defer env.srv.Close()
-	bad := 0
+	bad, nenv := 0, 0
 	for i := range cases {
 		if d := replayTrCase(env, &cases[i]); d != "" {
+			if envText(d) {
+				nenv++
+				continue
+			}
 			bad++
 			if bad <= 30 {
 				w.Write(Ev{"case": cases[i], "diff": d})
 			}
 		}
 	}
-	w.Write(Ev{"summary": true, "cases": len(cases), "bad": bad})
+	w.Write(Ev{"summary": true, "cases": len(cases), "bad": bad, "env": nenv})
 	_ = net.IP{}
 }
